@@ -15,6 +15,7 @@ import contextlib
 import hashlib
 import json
 import os
+import struct
 import time
 from collections import Counter
 from fractions import Fraction
@@ -841,8 +842,15 @@ def c_onode(node):
     return (f"(ONode {code} {mv} {c_fq(node.v_zero)} {c_fq(node.value)} {cz(node.simulations)} {probs} {kids})")
 
 
+def f64_bits(x):
+    return struct.unpack("<Q", struct.pack("<d", float(x)))[0]
+
+
 def c_call(call):
-    return "(" + c_qvec([float(x) for x in call["q"].tolist()]) + ", " + c_fq(call["lam"]) + ")"
+    lam = float(call["lam"])
+    l64 = struct.unpack("<Q", struct.pack("<d", lam))[0]        # lambda_n as policy_probs computed it (binary64)
+    l32 = struct.unpack("<I", struct.pack("<f", lam))[0]        # what the native solver receives (float)
+    return "(" + c_qvec([float(x) for x in call["q"].tolist()]) + f", {c_fq(lam)}, ({l64}, {l32}))"
 
 
 def c_phase(ph, with_calls):
@@ -851,7 +859,8 @@ def c_phase(ph, with_calls):
     calls = clist([clist([c_call(c) for c in cl]) for cl in ph["calls"]]) if with_calls else "[]"
     queries = "[]"
     if with_calls and ph.get("queries"):
-        queries = clist([f"({czlist(q['path'])}, {c_fq(q['C'])}, {copt(None if q['call'] is None else c_call(q['call']))})"
+        queries = clist([f"({czlist(q['path'])}, ({c_fq(q['C'])}, {f64_bits(q['C'])}), "
+                         f"{copt(None if q['call'] is None else c_call(q['call']))})"
                          for q in ph["queries"]])
     return f"(mkPhase {czlist(ph['path'])} {cz(ph['limit'])} {noise} {css} {calls} {queries})"
 
